@@ -83,12 +83,15 @@ func (c C12) Run(t *tape.Tape, opt core.RunOpt) (res core.Result) {
 	ntasks := 2 + t.Draw(9)
 	if t.Bool(1, 2) {
 		ntasks = 2 + t.Draw(3)
+	} else if opt.Tier == "thorough" && t.Bool(1, 3) {
+		ntasks = 8 + t.Draw(17) // up to 24 callers: "N up to the core count and beyond"
 	}
 	// a small pool of requests, so that tasks collide on the same fields
 	pool := make([]*workload.Request, 1+t.Draw(4))
+	pathMode := t.Bool(1, 2)
 	for i := range pool {
-		pool[i] = workload.GenRequest(t, workload.ReqOpt{Strat: strat, MultiOp: t.Bool(1, 4), Introspection: true,
-			VarInLiteral: strat != workload.StratReflect, ShuffleArgs: true, MaxDepth: 2 + t.Draw(3)})
+		pool[i] = workload.GenRequest(t, workload.ReqOpt{Strat: strat, MultiOp: !pathMode && t.Bool(1, 4), Introspection: !pathMode,
+			VarInLiteral: strat != workload.StratReflect, ShuffleArgs: true, MaxDepth: 2 + t.Draw(3), PathMode: pathMode})
 	}
 	base := make([]string, len(pool))
 	for i, r := range pool {
